@@ -29,7 +29,8 @@ REQUIRED_COUNTERS = {"twin_pairs": {"quick": 3000, "thorough": 50000},
                      "extractions_in_observed_runs": {"quick": 10000, "thorough": 200000},
                      "refcount_checks": {"quick": 10000, "thorough": 200000},
                      "valuestack_iters_checked": {"quick": 500, "thorough": 5000},
-                     "weakref_death_checks": {"quick": 1000, "thorough": 20000}}
+                     "weakref_death_checks": {"quick": 1000, "thorough": 20000},
+                     "tree_objects_checked_for_retention": {"quick": 5000, "thorough": 100000}}
 SHARD_TIMEOUT = {"quick": 400, "thorough": 5400}
 INTERPS = ["3.12", "3.11", "3.10", "3.9"]
 
@@ -43,6 +44,9 @@ def plan(tier, seed):
                                "start": 0, "count": 120, "runs": 3, "budget_s": 35})
             shards.append({"interp": interp, "leg": "skeleton", "mode": "suspended", "trickery": True, "seed": seed,
                            "start": 0, "count": 300, "runs": 3, "asyncify": True, "corpus_seed": seed, "budget_s": 35})
+            for trick in (True, False):
+                shards.append({"interp": interp, "leg": "trees", "mode": "suspended", "trickery": trick, "seed": seed,
+                               "count": 400, "budget_s": 30})
         else:
             for mode, trick in (("suspended", True), ("suspended", False), ("running", True)):
                 for s in range(2):
@@ -51,6 +55,9 @@ def plan(tier, seed):
                 shards.append({"interp": interp, "leg": "skeleton", "mode": mode, "trickery": trick, "seed": seed,
                                "start": 0, "count": 2500, "runs": 4, "asyncify": True, "corpus_seed": seed,
                                "budget_s": 1200})
+            for trick in (True, False):
+                shards.append({"interp": interp, "leg": "trees", "mode": "suspended", "trickery": trick, "seed": seed,
+                               "count": 20000, "budget_s": 900})
             # crash legs: same workload under the debug allocator, and a slice under valgrind
             shards.append({"interp": interp, "leg": "random", "mode": "suspended", "trickery": True, "seed": seed + 1,
                            "start": 0, "count": 1500, "runs": 3, "budget_s": 900, "env": {"PYTHONMALLOC": "debug"},
@@ -214,6 +221,15 @@ def worker(spec):
         extract_and_monitor(run, lambda: stackscope.extract_since(root), [root], tag)
         del root, f
 
+    if spec["leg"] == "trees":
+        trees_leg(spec, res, interp, modename, budget, stackscope)
+        gc.collect()
+        bad = [u for u in unclosed if "stackscope" in u[0]]
+        if bad:
+            res.violation(kind="stackscope async generator finalized un-closed", which=bad[:3], interp=interp)
+        ll.set_trickery_enabled(None)
+        return res
+
     nprog = 0
     for label, src, kind in ctxwork.programs(spec, mode):
         if budget.over():
@@ -317,3 +333,170 @@ def extra_coverage(statuses):
         out["valgrind_report_blocks"] = blocks
         out["valgrind_blocks_attributed_to_ctypes"] = attributed
     return out
+
+
+def trees_leg(spec, res, interp, modename, budget, stackscope):
+    """Retention and non-perturbation over generator-based managers and exit stacks populated with
+    every registration call (bound methods, closures over payload objects, callbacks with arguments):
+    after the results are dropped and the target has finished, every manager, callback owner and
+    payload object must die; the callbacks' own log must equal that of an unobserved twin."""
+    import contextlib
+    import gc
+    import random
+    import types
+    import warnings
+    import weakref
+
+    @types.coroutine
+    def sus(v):
+        return (yield v)
+
+    class Payload(object):
+        def __init__(self, n):
+            self.n = n
+
+    class Res(object):
+        def __init__(self, log, n):
+            self.log = log
+            self.n = n
+
+        def __enter__(self):
+            self.log.append(("enter", self.n))
+            return self
+
+        def __exit__(self, *e):
+            self.log.append(("exit", self.n))
+
+        def close(self, *e):
+            self.log.append(("close", self.n))
+
+        async def aclose(self, *e):
+            self.log.append(("aclose", self.n))
+
+        async def __aenter__(self):
+            self.log.append(("aenter", self.n))
+            return self
+
+        async def __aexit__(self, *e):
+            self.log.append(("aexit", self.n))
+
+    def build(rng, log, tracked, use_async):
+        st = contextlib.AsyncExitStack() if use_async else contextlib.ExitStack()
+        ops = []
+        for i in range(rng.randint(1, 5)):
+            op = rng.choice(["enter_context", "push_method", "push_closure", "callback_args", "gcm", "nested"] +
+                            (["push_async_exit_method", "push_async_callback", "enter_async_context"] if use_async else []))
+            ops.append(op)
+            r = Res(log, len(tracked))
+            tracked.append(r)
+            pay = Payload(len(tracked))
+            tracked.append(pay)
+            if op == "enter_context":
+                st.enter_context(r)
+            elif op == "push_method":
+                st.push(r.close)
+            elif op == "push_closure":
+                def closure(*e, pay=pay, r=r):
+                    r.log.append(("closure", pay.n))
+                st.push(closure)
+            elif op == "callback_args":
+                def cb(a, b=None, r=r):
+                    r.log.append(("cb", a.n))
+                st.callback(cb, pay, b=pay)
+            elif op == "gcm":
+                @contextlib.contextmanager
+                def g(r=r, pay=pay):
+                    with r:
+                        yield pay
+                st.enter_context(g())
+            elif op == "nested":
+                inner, _ = build(rng, log, tracked, False)
+                st.enter_context(inner)
+            elif op == "push_async_exit_method":
+                st.push_async_exit(r.aclose)
+            elif op == "push_async_callback":
+                async def acb(a, r=r):
+                    r.log.append(("acb", a.n))
+                st.push_async_callback(acb, pay)
+            elif op == "enter_async_context":
+                pass  # entered by the coroutine below
+        return st, ops
+
+    async def target(st, use_async, extra):
+        if use_async:
+            async with st:
+                for r in extra:
+                    await st.enter_async_context(r)
+                await sus("body")
+                await sus("body2")
+        else:
+            with st:
+                await sus("body")
+                await sus("body2")
+        return "done"
+
+    def run_once(seed, observed):
+        rng = random.Random(seed)
+        log = []
+        tracked = []
+        use_async = rng.random() < 0.5
+        st, ops = build(rng, log, tracked, use_async)
+        extra = []
+        if use_async:
+            for op in ops:
+                if op == "enter_async_context":
+                    r = Res(log, len(tracked))
+                    tracked.append(r)
+                    extra.append(r)
+        co = target(st, use_async, extra)
+        orng = random.Random(seed * 3 + 1)
+        nextr = 0
+        try:
+            while True:
+                v = co.send(None)
+                log.append(("susp", v))
+                if observed:
+                    for _ in range(orng.choice((1, 2, 3))):
+                        with warnings.catch_warnings():
+                            warnings.simplefilter("ignore")
+                            s = stackscope.extract(co)
+                        nextr += 1
+                        str(s)           # formatting exercises the description helpers too
+                        del s
+        except StopIteration as ex:
+            log.append(("end", ex.value))
+        refs = [weakref.ref(t) for t in tracked] + [weakref.ref(st)]
+        return log, refs, ops, nextr
+
+    for case in range(spec["count"]):
+        if budget.over():
+            res.count("budget_cut")
+            break
+        seed = spec.get("seed", 0) * 100003 + case
+        res.evaluations += 1
+        logA, refsA, ops, _ = run_once(seed, False)
+        logB, refsB, ops, nextr = run_once(seed, True)
+        res.count("twin_pairs")
+        res.count("extractions_in_observed_runs", nextr)
+        res.count("tree_cases")
+        res.nontrivial(interp, modename, "tree", seed)
+        if logA != logB:
+            res.violation(kind="twin-run-divergence (exit stacks)", ops=ops, unobserved=repr(logA[-6:]),
+                          observed=repr(logB[-6:]), mode=modename, interp=interp)
+        gc.collect()
+        alive = [r() for r in refsB if r() is not None]
+        res.count("weakref_death_checks", len(refsB))
+        res.count("tree_objects_checked_for_retention", len(refsB))
+        if alive:
+            holders = []
+            for a in alive[:2]:
+                for h in gc.get_referrers(a):
+                    if h is alive:
+                        continue
+                    holders.append(type(h).__name__)
+            res.violation(kind="objects retained after the target finished and results were dropped",
+                          registrations=ops, alive=[type(a).__name__ for a in alive[:6]], holders=holders[:8],
+                          mode=modename, interp=interp)
+        del alive, refsA, refsB
+        if len(res.samples) < 1:
+            res.sample({"leg": "trees", "registrations": ops, "mode": modename})
